@@ -1,117 +1,11 @@
 package rules
 
+import "mqttverif/internal/load"
+
 // knownFuncs lists the functions and methods of the analysed packages as of the
-// tree the rules were written against. A function that is NOT in this list is a
-// helper introduced later: path rules expand it in place inside its callers
-// instead of judging it on its own, so that extracting a helper does not alarm.
-var knownFuncs = map[string]bool{
-	"(*BigMessage).Error":                  true,
-	"(*BigMessage).ReadAll":                true,
-	"(*Client).Backoff":                    true,
-	"(*Client).Close":                      true,
-	"(*Client).Disconnect":                 true,
-	"(*Client).Offline":                    true,
-	"(*Client).Online":                     true,
-	"(*Client).Ping":                       true,
-	"(*Client).Publish":                    true,
-	"(*Client).PublishAtLeastOnce":         true,
-	"(*Client).PublishAtLeastOnceRetained": true,
-	"(*Client).PublishExactlyOnce":         true,
-	"(*Client).PublishExactlyOnceRetained": true,
-	"(*Client).PublishRetained":            true,
-	"(*Client).ReadBackoff":                true,
-	"(*Client).ReadSlices":                 true,
-	"(*Client).Subscribe":                  true,
-	"(*Client).SubscribeLimitAtLeastOnce":  true,
-	"(*Client).SubscribeLimitAtMostOnce":   true,
-	"(*Client).Unsubscribe":                true,
-	"(*Client).applySeqNoAndEnqueue":       true,
-	"(*Client).connect":                    true,
-	"(*Client).dialAndConnect":             true,
-	"(*Client).discard":                    true,
-	"(*Client).handshake":                  true,
-	"(*Client).lockWrite":                  true,
-	"(*Client).onPINGRESP":                 true,
-	"(*Client).onPUBACK":                   true,
-	"(*Client).onPUBCOMP":                  true,
-	"(*Client).onPUBLISH":                  true,
-	"(*Client).onPUBREC":                   true,
-	"(*Client).onPUBREL":                   true,
-	"(*Client).onSUBACK":                   true,
-	"(*Client).onUNSUBACK":                 true,
-	"(*Client).peekPacket":                 true,
-	"(*Client).publish":                    true,
-	"(*Client).readSlices":                 true,
-	"(*Client).resend":                     true,
-	"(*Client).submitPersisted":            true,
-	"(*Client).subscribeLevel":             true,
-	"(*Client).termCallbacks":              true,
-	"(*Client).toOffline":                  true,
-	"(*Client).write":                      true,
-	"(*Client).writeBuffers":               true,
-	"(*Client).writeBuffersNoWait":         true,
-	"(*Client).writeNoWait":                true,
-	"(*Config).newCONNREQ":                 true,
-	"(*Config).valid":                      true,
-	"(*ruggedPersistence).Load":            true,
-	"(*ruggedPersistence).Save":            true,
-	"(*unorderedTxs).breakAll":             true,
-	"(*unorderedTxs).endTx":                true,
-	"(*unorderedTxs).startTx":              true,
-	"(*volatile).Delete":                   true,
-	"(*volatile).List":                     true,
-	"(*volatile).Load":                     true,
-	"(*volatile).Save":                     true,
-	"(SubscribeError).Error":               true,
-	"(connSignal).Close":                   true,
-	"(connSignal).LocalAddr":               true,
-	"(connSignal).Read":                    true,
-	"(connSignal).RemoteAddr":              true,
-	"(connSignal).SetDeadline":             true,
-	"(connSignal).SetReadDeadline":         true,
-	"(connSignal).SetWriteDeadline":        true,
-	"(connSignal).Write":                   true,
-	"(connectReturn).Error":                true,
-	"(fileSystem).Delete":                  true,
-	"(fileSystem).List":                    true,
-	"(fileSystem).Load":                    true,
-	"(fileSystem).Save":                    true,
-	"(fileSystem).file":                    true,
-	"(fileSystem).spoolFile":               true,
-	"AdoptSession":                         true,
-	"FileSystem":                           true,
-	"InitSession":                          true,
-	"IsConnectionRefused":                  true,
-	"IsDeny":                               true,
-	"IsEnd":                                true,
-	"NewDialer":                            true,
-	"NewTLSDialer":                         true,
-	"VolatileSession":                      true,
-	"blockSignalChan":                      true,
-	"cleanSequence":                        true,
-	"clearSignalChan":                      true,
-	"decodeValue":                          true,
-	"encodeValue":                          true,
-	"init":                                 true,
-	"initSession":                          true,
-	"mqtttest.(ExchangeBlock).Error":       true,
-	"mqtttest.NewPublishExchangeStub":      true,
-	"mqtttest.NewPublishMock":              true,
-	"mqtttest.NewPublishStub":              true,
-	"mqtttest.NewReadSlicesMock":           true,
-	"mqtttest.NewReadSlicesStub":           true,
-	"mqtttest.NewSubscribeMock":            true,
-	"mqtttest.NewSubscribeStub":            true,
-	"mqtttest.NewUnsubscribeMock":          true,
-	"mqtttest.NewUnsubscribeStub":          true,
-	"mqtttest.newSubscribeMock":            true,
-	"mqtttest.newSubscribeStub":            true,
-	"newClient":                            true,
-	"newVolatile":                          true,
-	"nonNilIsAny":                          true,
-	"publishPacket":                        true,
-	"stringCheck":                          true,
-	"topicCheck":                           true,
-	"writeBuffersTo":                       true,
-	"writeTo":                              true,
-}
+// tree the rules were written against (load/known_gen.go). A function that is
+// NOT in this list is a helper introduced later: path rules expand it in place
+// inside its callers instead of judging it on its own, so that extracting a
+// helper does not alarm. A known name that was merely renamed is spelled the old
+// way by the loader before any rule runs (load/known.go).
+var knownFuncs = load.KnownFuncNames()
